@@ -180,6 +180,9 @@ func init() {
 	// is a path (Fisher-Yates with symChoice).
 	H["math/rand.Shuffle"] = func(fr *frame, a []value) value {
 		n := a[0].(int)
+		if shuffleIdentity {
+			return nil
+		}
 		for i := n - 1; i > 0; i-- {
 			j := X.decide(i+1, func(int) string { return "" })
 			X.choices = append(X.choices, j)
@@ -565,6 +568,19 @@ func init() {
 }
 
 var durField = -1
+
+// shuffleIdentity: rand.Shuffle leaves the order alone (used by harness
+// oracles whose result must not depend on it; the code under test's own
+// shuffles stay exhaustive).
+var shuffleIdentity bool
+
+func init() {
+	pathResets = append(pathResets, func() { shuffleIdentity = false })
+	Intrinsics["symShuffleMode"] = func(fr *frame, a []value) value {
+		shuffleIdentity = a[0].(int) == 1
+		return nil
+	}
+}
 
 // the model keeps the whole duration (int64 ns) in the Seconds field
 func durSecondsField(fr *frame) int {
